@@ -208,16 +208,25 @@ func (lit *levelIterator) Seek(id []byte) error {
 
 func (lit *levelIterator) SeekReverse(id []byte) error {
 	lit.forward = false
+	found := false
 	if lit.it.Seek(id) {
 		//Level iterator will land on the first value above the request
 		//if we're there, move once to get below start request
+		found = true
 		if bytes.Compare(id, lit.it.Key()) < 0 {
-			lit.it.Prev()
+			found = lit.it.Prev()
 		}
+	} else {
+		//every key is below the request: the largest key <= id is the last one
+		found = lit.it.Last()
+	}
+	if found {
 		lit.key = copyBytes(lit.it.Key())
 		lit.value = copyBytes(lit.it.Value())
 		return nil
 	}
+	lit.key = nil
+	lit.value = nil
 	return fmt.Errorf("Invalid")
 }
 
